@@ -7,8 +7,10 @@ pub mod c16;
 pub mod c17;
 pub mod c22;
 pub mod c23;
+pub mod c26;
+pub mod c27;
 pub mod c29;
 
 pub fn all() -> Vec<Prop> {
-    vec![c10::PROP, c11::PROP, c13::PROP, c16::PROP, c17::PROP, c22::PROP, c23::PROP, c29::PROP]
+    vec![c10::PROP, c11::PROP, c13::PROP, c16::PROP, c17::PROP, c22::PROP, c23::PROP, c26::PROP, c27::PROP, c29::PROP]
 }
